@@ -33,6 +33,7 @@
 #include <dlfcn.h>
 #include <openssl/bio.h>
 #include <openssl/ec.h>
+#include <openssl/err.h>
 #include <openssl/evp.h>
 #include <openssl/pem.h>
 #include <openssl/ssl.h>
@@ -440,22 +441,46 @@ struct Exec
     }
     if (P.tls)
     {
-      if (!peerHs && allowHs)
+      if (!peerHs && allowHs && !dPeer.garbled)
       {
         int r = SSL_do_handshake(pssl);
-        if (r == 1) peerHs = true;
+        if (r == 1)
+          peerHs = true;
+        else
+          peerTlsError(r);
       }
-      if (peerHs)
+      if (peerHs && !dPeer.garbled)
       {
         for (;;)
         {
           int n = SSL_read(pssl, buf.data(), (int)buf.size());
-          if (n <= 0) break;
+          if (n <= 0)
+          {
+            peerTlsError(n);
+            break;
+          }
           dPeer.feed(buf.data(), (size_t)n);
         }
       }
       flushPeerTls();
     }
+  }
+  // The peer's TLS layer rejects what the engine put on the stream (bad record, wrong version, bad MAC ...): the bytes on
+  // the wire are not the TLS-protected concatenation of the payloads.  A stream that merely ends inside a record (the
+  // session was closed or reset) is an early end, not a corruption.
+  void peerTlsError(int rc)
+  {
+    int e = SSL_get_error(pssl, rc);
+    if (e != SSL_ERROR_SSL)
+    {
+      ERR_clear_error();
+      return;
+    }
+    unsigned long code = ERR_peek_error();
+    ERR_clear_error();
+    if (ERR_GET_REASON(code) == SSL_R_UNEXPECTED_EOF_WHILE_READING) return;
+    dPeer.garbled = true;
+    if (g_logging.load()) g_trace.add(vf::Ev("Garbled").i("at", -1).i("idx", 0).i("off", (long)ERR_GET_REASON(code)));
   }
   bool peerWrite(const std::uint8_t *p, size_t n)
   {
@@ -673,7 +698,7 @@ struct Exec
       [&]
       {
         peerRead(1 << 30, true);
-        return (peerHs && hsDoneEngine.load()) || closedSeen.load();
+        return (peerHs && hsDoneEngine.load()) || closedSeen.load() || dPeer.garbled || peerEof;
       },
       8.0);
     return ok;
